@@ -6,7 +6,7 @@
    and re-checked on every run.  Partial: the Go scheduler, the runtime's channels and the
    race detector are not modelled; shared-memory discipline is checked at run time (-race). *)
 From Coq Require Import List Arith.
-From GT Require Import Conc.Pipeline Conc.Instance Conc.InstanceCheck Proofs.PipeFinite Proofs.PipeNoLeak Proofs.PipeRefute Proofs.PipeProgress Proofs.InstanceLive.
+From GT Require Import Conc.Pipeline Conc.Instance Conc.InstanceCheck Proofs.PipeFinite Proofs.PipeNoLeak Proofs.PipeRefute Proofs.PipeProgress Proofs.InstanceLive Proofs.PipeStrictReturn.
 Import ListNotations.
 
 (* bounded time: every step strictly decreases a measure computed from the parameters, so every
@@ -92,6 +92,21 @@ Theorem C11_cancelled_return_is_error : forall p s s' r,
   step p s s' -> st_main s = None -> st_main s' = Some r -> st_ucancel s = true -> r <> None.
 Proof. exact cancelled_return_is_error. Qed.
 Print Assumptions C11_cancelled_return_is_error.
+
+(* ONCE IT HAS RETURNED NOTHING REMAINS (D24 repair: the call decides its outcome, cancels, drains
+   every error channel until it is closed, and only then returns).  In the LTS the moment of the
+   actual return is `drained`: outcome decided, source done, every stage closed; then the state is
+   quiescent -- source, every worker, every closer and every reader have returned.  And the drain
+   ends in every run. *)
+Theorem C11_nothing_remains_at_return : forall p s, reach p s -> drained s -> quiescent s.
+Proof. exact drained_is_quiescent. Qed.
+Print Assumptions C11_nothing_remains_at_return.
+
+Theorem C11_drain_terminates : forall p s l,
+  safe_params p -> live_params p -> reach p s -> path p s l -> (forall s', ~ step p (last l s) s') ->
+  List.length l <= measure p s /\ drained (last l s) /\ quiescent (last l s).
+Proof. exact drain_terminates. Qed.
+Print Assumptions C11_drain_terminates.
 
 (* the model distinguishes the repaired code from the defective one (D12): with Blocking error
    sends -- a bare `errc <- err` on a capacity-1 channel read at most once -- a leak is reachable:
